@@ -77,8 +77,8 @@ def main():
                 new = open(np_).read()
                 if new != old:
                     changed.append(fn)
-                    was = set(re.findall(r'"(\w+)"', re.search(r"def translated : List String := \[([^\]]*)\]", old).group(1)))
-                    now = set(re.findall(r'"(\w+)"', re.search(r"def translated : List String := \[([^\]]*)\]", new).group(1)))
+                    was = set(re.findall(r'"(\w+)"', re.search(r"def translated : List (?:_root_\.)?String := \[([^\]]*)\]", old).group(1)))
+                    now = set(re.findall(r'"(\w+)"', re.search(r"def translated : List (?:_root_\.)?String := \[([^\]]*)\]", new).group(1)))
                     dropped += sorted(was - now)
             if failed or dropped:
                 r["outcome"] = "untranslated"; r["detail"] = failed + dropped
